@@ -68,11 +68,26 @@ def main(argv):
         GB.PORTS = save
     runs = []
     model = None
+    # one process runs in a working directory in which every (relative) Dezyne file name of the configurations exists as a
+    # symbolic link to a differently named file: the output must not depend on the state of the file system
+    import tempfile, shutil, os
+    fsdir = tempfile.mkdtemp(prefix='dznverif_fs_')
+    for n, name in enumerate(sorted({c['cfg'].get('file', 'Model.dzn') for c in cases})):
+        if not name or name.startswith('/') or '..' in name:
+            continue
+        path = os.path.join(fsdir, name)
+        os.makedirs(os.path.dirname(path) or fsdir, exist_ok=True)
+        blob = os.path.join(fsdir, f'store_{n}_blob.dzn')
+        open(blob, 'w').write('// dezyne model\n')
+        try:
+            os.symlink(blob, path)
+        except OSError:
+            pass
     for k, hs in enumerate(seeds):
         # every other process builds the cases in the opposite order: the output for a case must not depend on what the
         # process built before ("regardless of ... the process it runs in")
         if k % 2 == 1:
-            io, mo = BC.run_builds(cases[::-1], hashseed=hs, order_seed=1000 + k, twice=True)
+            io, mo = BC.run_builds(cases[::-1], hashseed=hs, order_seed=1000 + k, twice=True, cwd=fsdir)
             io, mo = io[::-1], mo[::-1]
         else:
             io, mo = BC.run_builds(cases, hashseed=hs, order_seed=1000 + k, twice=(k == 0))
@@ -82,6 +97,7 @@ def main(argv):
     distinct_contents = sorted({f[1] for r in runs[0] if r[0] == 'ok' for f in r[1]})
     model_hash = dict(zip(distinct_contents, (ds(h) for h in run_model([[603, x] for x in distinct_contents]))))
     rep.extra['md5_evaluations_in_model'] = len(distinct_contents)
+    shutil.rmtree(fsdir, ignore_errors=True)
     nv = 0
     broken = []
     for ci, c in enumerate(cases):
@@ -100,7 +116,8 @@ def main(argv):
             if outs[k] != outs[0]:
                 d = BC.first_diff(outs[0][1], outs[k][1]) if outs[0][0] == 'ok' and outs[k][0] == 'ok' else f'{outs[0][0]} vs {outs[k][0]}'
                 problem = (f'equal inputs give different output in two processes (PYTHONHASHSEED={seeds[0]} and {seeds[k]}, sets built in '
-                           f'different insertion orders, cases built in {"opposite" if k % 2 else "the same"} order): {d}')
+                           f'different insertion orders, cases built in {"opposite" if k % 2 else "the same"} order'
+                           + (', the second one in a directory where the Dezyne file names are symbolic links' if k % 2 else '') + f'): {d}')
                 break
         if not problem and outs[0][0] == 'ok':
             for f in outs[0][1]:
